@@ -46,6 +46,31 @@ MatchingsUpTo(B, T, n) ==
 Matchings(B, T) == MatchingsUpTo(B, T, Len(B))
 Used(B, M) == UNION { M[n] : n \in DOMAIN B }
 
+(***************************************************************************)
+(* The selection rule of the tool (find_sell_to_cover_trade_set): benefits *)
+(* are taken in file-name order; each takes, among the sets of still       *)
+(* unconsumed candidate trades adding up to its sold shares, one whose     *)
+(* share-weighted average price is closest to its stated sale price.  The  *)
+(* choice is greedy: a benefit can take the only trade a later benefit     *)
+(* could have used, and the run is then refused although a valid matching  *)
+(* exists (GreedyCanFail) - the recorded finding of C19.                   *)
+(***************************************************************************)
+RECURSIVE SumValue(_, _)
+SumValue(T, S) == IF S = {} THEN RZero ELSE LET x == CHOOSE x \in S : TRUE IN RAdd(RMul(T[x].price, T[x].shares), SumValue(T, S \ {x}))
+WAvg(T, S) == RDiv(SumValue(T, S), SumShares(T, S))
+Dist(b, T, S) == RAbs(RSub(b.sprice, WAvg(T, S)))
+OpenSets(b, T, left) == { S \in SUBSET (Candidates(b, T) \cap left) : S # {} /\ REq(SumShares(T, S), b.sold) }
+BestSets(b, T, left) == { S \in OpenSets(b, T, left) : \A U \in OpenSets(b, T, left) : RLe(Dist(b, T, S), Dist(b, T, U)) }
+RECURSIVE GreedyFail(_, _, _, _, _)
+\* some sequence of greedy choices (ties: any of the closest sets) leaves a benefit without candidates
+GreedyFail(B, T, ord, k, left) ==
+  IF k > Len(ord) THEN FALSE
+  ELSE LET b == B[ord[k]] IN
+       IF ~NeedsMatch(b) THEN GreedyFail(B, T, ord, k + 1, left)
+       ELSE IF OpenSets(b, T, left) = {} THEN TRUE
+       ELSE \E S \in BestSets(b, T, left) : GreedyFail(B, T, ord, k + 1, left \ S)
+GreedyCanFail(B, T, ord) == GreedyFail(B, T, ord, 1, DOMAIN T)
+
 EachShareOnce(B, T, M) ==
   RAdd(RSumSeq([n \in DOMAIN B |-> B[n].sold]), SumShares(T, DOMAIN T \ Used(B, M))) = SumShares(T, DOMAIN T)
 
